@@ -3,6 +3,7 @@ package pipemon
 import (
 	"fmt"
 	"sort"
+	"strings"
 
 	"verifharness/core"
 )
@@ -32,7 +33,39 @@ func RunProperty(c *core.Ctx, prop string, plan Plan, crashIsViolation bool, ext
 		cases[0].Name = "sample"
 	}
 	otherProps := map[string]int{}
-	RunAll(c, cases, 4, 12, func(r Result) {
+	raceKeys := map[string]int{}
+	Races = func(cs []Case, reports []string) {
+		for _, rr := range reports {
+			c.Count("race_reports", 1)
+			key := core.RaceKey(rr)
+			raceKeys[key]++
+			// a race on the memory of an event (its JSON tree) means two holders
+			// own one event object at the same time: C05
+			onEvent := strings.Contains(rr, "insane-json") || strings.Contains(rr, "pipeline.(*Event)")
+			if onEvent && prop == "C05" {
+				split := "no-split"
+				for _, a := range cs[0].Chain {
+					if fmt.Sprint(a["type"]) == "split" {
+						split = "split"
+					}
+				}
+				dlq := "no-dlq"
+				if cs[0].DLQ != nil {
+					dlq = "dlq"
+				}
+				sig := "C05:event-race:" + key + ":" + split + ":" + dlq
+				if split == "split" && dlq == "dlq" {
+					// one structural cause (children alias the parent's JSON tree while
+					// they wait in the dead queue): classified by the configuration shape
+					sig = "C05:event-race:split:dlq"
+				}
+				c.Violation(sig, "data race on the memory of an event: it is read/written by two holders at once", map[string]any{"case": cs[0], "report": core.Trunc(rr, 6000)})
+			} else if raceKeys[key] == 1 {
+				c.Extra("race_sample_"+fmt.Sprint(len(raceKeys)), map[string]any{"case": cs[0].Name, "chain": cs[0].Chain, "dlq": cs[0].DLQ != nil, "report": core.Trunc(rr, 5000)})
+			}
+		}
+	}
+	RunAll(c, cases, 1, 12, func(r Result) {
 		c.Eval(1)
 		for k, v := range r.Stats {
 			switch k {
@@ -49,13 +82,27 @@ func RunProperty(c *core.Ctx, prop string, plan Plan, crashIsViolation bool, ext
 		}
 		for _, v := range r.Viol {
 			if v.Prop == prop {
-				c.Violation(prop+":"+v.Sig, v.What, map[string]any{"case": r.Case, "witness": v.Witness, "log_head": r.LogHead})
+				sig := prop + ":" + v.Sig
+				switch {
+				case chainClass(r.Case) == "multi-hold":
+					// chains with two hold/collapse-capable actions process events
+					// re-entrantly; every symptom is classified by that shape
+					sig = prop + ":multi-hold-chain"
+				case breakBeforeHold(r.Case) && (strings.Contains(v.Sig, "held-by-action") || strings.HasPrefix(v.Sig, "commit-out-of-order:late-event-via=main")):
+					// ActionBreak at an earlier action bypasses a later action that holds
+					// an event; the processor then abandons the held event
+					sig = prop + ":break-before-hold-chain"
+				}
+				c.Violation(sig, v.What, map[string]any{"case": r.Case, "witness": v.Witness, "log_head": r.LogHead})
 			} else {
 				otherProps[v.Prop+":"+v.Sig]++
 			}
 		}
 		if r.Stats["accepted"] > 0 && r.Inconclusive == "" {
 			c.Nontrivial(r.Fingerprint)
+		}
+		if r.Stats["case_wall_ms"] > 20000 {
+			c.Extra("slow_case_example", map[string]any{"case": r.Case, "stats": r.Stats})
 		}
 		if r.Case.Name == "sample" {
 			h := r.LogHead
@@ -66,17 +113,73 @@ func RunProperty(c *core.Ctx, prop string, plan Plan, crashIsViolation bool, ext
 		}
 	}, func(cs Case, res *core.ChildResult) {
 		c.Eval(1)
-		msg, site := core.PanicSite(res.Stderr)
+		msg, site := core.PanicFunc(res.Stderr)
 		c.Count("child_crashes", 1)
-		sig := fmt.Sprintf("%s:pipeline-crash:%s@%s", prop, core.NormalizeMsg(msg), site)
+		sig := fmt.Sprintf("%s:pipeline-crash:%s@%s:chain=%s", prop, core.NormalizeMsg(msg), site, chainClass(cs))
+		if chainClass(cs) == "multi-hold" {
+			sig = prop + ":multi-hold-chain"
+		}
 		if crashIsViolation {
-			c.Violation(sig, "the process died while the pipeline was running: "+msg, map[string]any{"case": cs, "stderr": core.Trunc(res.Stderr, 4000)})
+			c.Violation(sig, "the process died while the pipeline was running: "+msg, map[string]any{"case": cs, "stderr": core.Trunc(res.Stderr, 4000), "history_tail": res.Log})
 		} else {
 			c.Inconclusive("process died: " + core.NormalizeMsg(msg))
 			c.Extra("crash_sample", map[string]any{"case": cs, "stderr": core.Trunc(res.Stderr, 2000)})
 		}
 	})
+	if len(raceKeys) > 0 {
+		c.Extra("race_report_keys", raceKeys)
+	}
 	if len(otherProps) > 0 {
 		c.Extra("observations_for_other_properties", otherProps)
 	}
+}
+
+// chainClass classifies the action chain of a case for crash signatures:
+// "multi-hold" when two or more actions can hold or collapse events (a held
+// event propagated by the first can be held again by the second), else
+// "single-hold" / "no-hold".
+func chainClass(cs Case) string {
+	n := 0
+	for _, a := range cs.Chain {
+		switch fmt.Sprint(a["type"]) {
+		case "join", "join_template":
+			if cs.JoinPct > 0 {
+				n++
+			}
+		case "verif_script":
+			if cs.OpWeights["hold"] > 0 || cs.OpWeights["collapse"] > 0 {
+				n++
+			}
+		}
+	}
+	switch {
+	case n >= 2:
+		return "multi-hold"
+	case n == 1:
+		return "single-hold"
+	}
+	return "no-hold"
+}
+
+// breakBeforeHold: some action that can return ActionBreak sits before an
+// action that can hold events.
+func breakBeforeHold(cs Case) bool {
+	if cs.OpWeights["break"] == 0 {
+		return false
+	}
+	seenBreaker := false
+	for _, a := range cs.Chain {
+		switch fmt.Sprint(a["type"]) {
+		case "verif_script":
+			if seenBreaker && (cs.OpWeights["hold"] > 0 || cs.OpWeights["collapse"] > 0) {
+				return true
+			}
+			seenBreaker = true
+		case "join", "join_template":
+			if seenBreaker && cs.JoinPct > 0 {
+				return true
+			}
+		}
+	}
+	return false
 }
